@@ -57,6 +57,11 @@ def shared_schema_specs(rep, rng, n):
             specs = [gd.spell_rule(rng, rr, copy.deepcopy(rng.choice(gd.DOC_SHAPES))) for rr in rrs]
         except Unencodable:
             continue
+        for sp in specs:
+            if "cast" not in sp and rng.random() < 0.2:
+                sp["cast"] = rng.choice([{}, {}, None])          # "no casts", written out
+            if "doc" not in sp and rng.random() < 0.1:
+                sp["doc"] = rng.choice([[], {}, None, ""])
         as_tuple = rng.random() < 0.5
         share = [[j, field] for j in range(1, len(specs)) for field in ("path", "condition", "cast", "doc")
                  if field in specs[0] and rng.random() < 0.45]
